@@ -9,7 +9,8 @@ C05 (conversion hops) — the three object conversions around the engine model c
 (ii)  `pie_core_roundtrip` / `core_pie_roundtrip`: the object factory's two directions are inverse to each other up
       to stated normalisations (what the pie classes cannot hold), with witnesses.
 (iii) `register_get_conversion_fidelity`: Register-conversion ; database ; Get-conversion returns the registered
-      secret up to `engineNorm`, which is the identity on `Storable` secrets (`register_get_exact`); every excluded
+      secret up to `engineNorm`, which is the identity on `Storable` secrets (`register_get_exact`); whatever
+      Register's conversion accepts can be stored (`registered_object_is_storable`); every excluded
       point has a witness theorem, and the real code was run at each of them (harness/lib/convert_objects_check.py
       counts them as `characterised:*`).
 (iv)  `client_server_same_conversion`: the client's conversion of what Get built is the stored object;
@@ -18,6 +19,7 @@ Model: `KmipModel/ConvertObjects.lean`, notions: `KmipModel/ConvertObjectsSpec.l
 compared with the model on every run (correspondence).
 -/
 import KmipModel.Lemmas.ConvertObjects
+set_option linter.unusedSimpArgs false
 namespace Kmip.C05Convert
 open Kmip.Convert Kmip.ConvObj
 
@@ -113,9 +115,11 @@ theorem pie_core_roundtrip (p : PieObj) (hok : PieOk p) (hwf : PieWf p) (hcomp :
     obtain ⟨a, ha⟩ := Option.isSome_iff_exists.mp ha
     obtain ⟨l, hl⟩ := Option.isSome_iff_exists.mp hl
     obtain ⟨f, hf⟩ := Option.isSome_iff_exists.mp hf
+    simp only [PieOk, pieOk, Bool.and_eq_true] at hok
+    have hprime := (isOk_match _).mp hok.2
     simp only [pieToCore, factoryKeyBlock, bind_ok', pure_ok'] at h
     obtain ⟨kb, ⟨_, _, _, _, rfl⟩, _, _, rfl⟩ := h
-    simp [coreToPie, keyBlock, ha, hl, hf, materialValue, fldValue, optFld, fresh,
+    simp [coreToPie, keyBlock, ha, hl, hf, materialValue, fldValue, optFld, fresh, hprime,
       normCols, PieSpecific.mapCrypto, PieSpecific.mapKey, pure, Except.pure, bind, Except.bind]
   | secretData cr t =>
     simp only [PieOk, pieOk, PieObj.kind, PieSpecific.kind, Bool.and_eq_true, beq_iff_eq] at hok
@@ -123,7 +127,7 @@ theorem pie_core_roundtrip (p : PieObj) (hok : PieOk p) (hwf : PieWf p) (hcomp :
     subst ht
     simp only [pieToCore, pure_ok'] at h
     subst h
-    simp [coreToPie, materialValue, fldValue, optFld, fresh, PieSpecific.mapCrypto, PieSpecific.mapKey, pure,
+    simp [coreToPie, materialValue, keyBlock, fldValue, optFld, fresh, PieSpecific.mapCrypto, PieSpecific.mapKey, pure,
       Except.pure, bind, Except.bind]
   | opaqueObj t =>
     simp only [PieOk, pieOk, PieObj.kind, PieSpecific.kind, Bool.and_eq_true, beq_iff_eq] at hok
@@ -152,20 +156,11 @@ theorem core_pie_roundtrip (c : CoreObj) (hwf : CoreWf c) (p : PieObj) (h : core
     · simp [typeErr] at h
   | key kk kb => exact core_pie_roundtrip_key kk kb hwf p h
   | splitKey s kb? =>
-    cases kb? with
-    | none => simp [coreToPie, keyBlock, attrErr, bind, Except.bind] at h
-    | some kb =>
-      simp only [CoreWf, coreChecks, bind_ok'] at hwf
+    obtain ⟨kb, alg, len, value, format, n, rfl, ealg, elen, efmt, hkv, _, rfl⟩ := coreToPie_splitKey_ok h
+    · simp only [CoreWf, coreChecks, bind_ok'] at hwf
       obtain ⟨_, hkb, hs⟩ := hwf
       obtain ⟨hlen, hwrap⟩ := kbChecks_ok hkb
       have hwrap' := chkWrap?_norm hwrap
-      simp only [coreToPie, keyBlock, bind_ok', pure_ok'] at h
-      obtain ⟨_, rfl, alg, halg, len, hlenv, value, hval, format, hfmt, h⟩ := h
-      have ealg := optFld_of_fldValue halg
-      have elen := optFld_of_fldValue hlenv
-      have efmt := optFld_of_fldValue hfmt
-      obtain ⟨n, hkv⟩ := materialValue_ok hval
-      subst h
       cases len with
       | none =>
         have hl' : kb.len = .unset := elen.symm
@@ -176,22 +171,8 @@ theorem core_pie_roundtrip (c : CoreObj) (hwf : CoreWf c) (p : PieObj) (h : core
         simp [pieToCore, freshPie, factoryKeyBlock, hwrap', hlen l hl', hs, bind, Except.bind, pure, Except.pure,
           factoryNorm, normKb, hkv, ealg, efmt, hl']
   | secretData t kb? =>
-    cases kb? with
-    | none =>
-      simp only [coreToPie, bind_ok'] at h
-      obtain ⟨_, _, _, hm, _⟩ := h
-      simp [materialValue, attrErr] at hm
-    | some kb =>
-      simp only [coreToPie, bind_ok'] at h
-      obtain ⟨t', ht, value, hval, h⟩ := h
-      have et := optFld_of_fldValue ht
-      obtain ⟨n, hkv⟩ := materialValue_ok hval
-      cases t' with
-      | none => simp [typeErr] at h
-      | some t' =>
-        simp only [pure_ok'] at h
-        subst h
-        simp [pieToCore, freshPie, factoryNorm, secretKb, hkv, et, pure, Except.pure]
+    obtain ⟨kb, t', value, n, rfl, rfl, hkv, hw, rfl⟩ := coreToPie_secretData_ok h
+    simp [pieToCore, freshPie, factoryNorm, secretKb, hkv, hw, optFld, pure, Except.pure]
   | opaqueObj t v =>
     simp only [coreToPie, bind_ok'] at h
     obtain ⟨t', ht, h⟩ := h
@@ -207,6 +188,25 @@ theorem core_pie_roundtrip (c : CoreObj) (hwf : CoreWf c) (p : PieObj) (h : core
         simp [pieToCore, freshPie, factoryNorm, et, pure, Except.pure]
 
 
+
+/-- on `Storable` secrets the factory's round trip is exact -/
+theorem factoryNorm_storable (c : CoreObj) (h : Storable c) : factoryNorm c = c := by
+  cases c with
+  | certificate t v => rfl
+  | key kk kb => cases kb with
+    | none => rfl
+    | some kb => simp only [factoryNorm, Option.map_some, normKb_storable kb h]
+  | splitKey s kb => cases kb with
+    | none => rfl
+    | some kb => simp only [factoryNorm, Option.map_some, normKb_storable kb h]
+  | secretData t kb => cases kb with
+    | none => rfl
+    | some kb => simp only [factoryNorm, Option.map_some, secretKb_storable kb h]
+  | opaqueObj t v => rfl
+
+theorem core_pie_roundtrip_exact (c : CoreObj) (hwf : CoreWf c) (hs : Storable c) (p : PieObj)
+    (h : coreToPie c = .ok p) : pieToCore p = .ok c := by
+  rw [core_pie_roundtrip c hwf p h, factoryNorm_storable c hs]
 
 /-! ## (iii) Register ; database ; Get -/
 
@@ -225,20 +225,11 @@ theorem engine_of_coreToPie (c : CoreObj) (hwf : CoreWf c) (p : PieObj) (h : cor
     · simp [typeErr] at h
   | key kk kb => exact engine_of_coreToPie_key kk kb hwf p h
   | splitKey s kb? =>
-    cases kb? with
-    | none => simp [coreToPie, keyBlock, attrErr, bind, Except.bind] at h
-    | some kb =>
-      simp only [CoreWf, coreChecks, bind_ok'] at hwf
+    obtain ⟨kb, alg, len, value, format, n, rfl, ealg, elen, efmt, hkv, _, rfl⟩ := coreToPie_splitKey_ok h
+    · simp only [CoreWf, coreChecks, bind_ok'] at hwf
       obtain ⟨_, hkb, hs⟩ := hwf
       obtain ⟨hlen, hwrap⟩ := kbChecks_ok hkb
       have hwrap' := chkWrap?_norm hwrap
-      simp only [coreToPie, keyBlock, bind_ok', pure_ok'] at h
-      obtain ⟨_, rfl, alg, halg, len, hlenv, value, hval, format, hfmt, h⟩ := h
-      have ealg := optFld_of_fldValue halg
-      have elen := optFld_of_fldValue hlenv
-      have efmt := optFld_of_fldValue hfmt
-      obtain ⟨n, hkv⟩ := materialValue_ok hval
-      subst h
       cases len with
       | none =>
         have hl' : kb.len = .unset := elen.symm
@@ -251,24 +242,9 @@ theorem engine_of_coreToPie (c : CoreObj) (hwf : CoreWf c) (p : PieObj) (h : cor
           engineNorm, engineKb, normKb, hkv, efmt, hl']
         rw [← ealg]; cases alg <;> rfl
   | secretData t kb? =>
-    cases kb? with
-    | none =>
-      simp only [coreToPie, bind_ok'] at h
-      obtain ⟨_, _, _, hm, _⟩ := h
-      simp [materialValue, attrErr] at hm
-    | some kb =>
-      simp only [coreToPie, bind_ok'] at h
-      obtain ⟨t', ht, value, hval, h⟩ := h
-      have et := optFld_of_fldValue ht
-      obtain ⟨n, hkv⟩ := materialValue_ok hval
-      cases t' with
-      | none => simp [typeErr] at h
-      | some t' =>
-        simp only [pure_ok'] at h
-        subst h
-        simp [engineBuildCore, PieObj.kind, PieSpecific.kind, freshPie, engineKeyBlock, chkInteger?, chkWrap?, engineNorm, secretKb, hkv, pure,
-          Except.pure, bind, Except.bind, optFld]
-        exact et
+    obtain ⟨kb, t', value, n, rfl, rfl, hkv, hw, rfl⟩ := coreToPie_secretData_ok h
+    simp [engineBuildCore, PieObj.kind, PieSpecific.kind, freshPie, engineKeyBlock, chkInteger?, chkWrap?, engineNorm,
+      secretKb, hkv, hw, pure, Except.pure, bind, Except.bind, optFld]
   | opaqueObj t v =>
     simp only [coreToPie, bind_ok'] at h
     obtain ⟨t', ht, h⟩ := h
@@ -317,6 +293,25 @@ theorem register_get_exact (c : CoreObj) (hwf : CoreWf c) (hs : Storable c) (p :
     (a : Attrs) (ha : ∀ m ∈ a.masks, m ∈ maskBits) (r : Row) (hr : pieToRow (withAttrs p a) = .ok r) :
     engineBuildCore (rowToPie r) = .ok c := by
   rw [register_get_conversion_fidelity c hwf p hp a ha r hr, engineNorm_storable c hs]
+
+/-- **everything Register's conversion accepts can be stored** (after the repair 8b96c42; before it a Split Key with a
+prime field size beyond 64 bits was accepted and the commit failed) -/
+theorem registered_object_is_storable (c : CoreObj) (hwf : CoreWf c) (p : PieObj) (hp : coreToPie c = .ok p)
+    (a : Attrs) (ha : AttrsFit a) : pieToRow (withAttrs p a) = .ok (rowOf (withAttrs p a)) := by
+  have hs : chkSpec64 (withAttrs p a).spec = .ok () := by
+    show chkSpec64 (p.spec.mapCrypto _) = .ok ()
+    rw [chkSpec64_mapCrypto]; exact coreToPie_spec64 c hwf p hp
+  obtain ⟨h1, h2, h3⟩ := ha
+  simp only [pieToRow, chkStorable, bind_ok', pure_ok']
+  exact ⟨(), ⟨(), h1, (), h2, (), h3, hs⟩, trivial⟩
+
+/-- **Register ; database ; Get, without assuming that the store succeeds**: a `Storable` secret the factory accepts
+is stored, and Get's conversion of what is loaded later is the registered secret -/
+theorem register_get_exact_total (c : CoreObj) (hwf : CoreWf c) (hs : Storable c) (p : PieObj) (hp : coreToPie c = .ok p)
+    (a : Attrs) (ha : ∀ m ∈ a.masks, m ∈ maskBits) (hfit : AttrsFit a) :
+    (pieToRow (withAttrs p a) >>= fun r => engineBuildCore (rowToPie r)) = .ok c := by
+  rw [registered_object_is_storable c hwf p hp a hfit]
+  exact register_get_exact c hwf hs p hp a ha _ (registered_object_is_storable c hwf p hp a hfit)
 
 /-! ## (iv) the client -/
 
@@ -398,6 +393,191 @@ theorem client_sees_registered_object (c : CoreObj) (hwf : CoreWf c) (hs : Stora
     (hr : pieToRow (withAttrs p a) = .ok r) : engineBuildCore (rowToPie r) >>= coreToPie = .ok p := by
   rw [register_get_exact c hwf hs p hp a ha r hr]
   exact hp
+
+
+/-! ## characterised exceptions: each with a concrete secret (the real code was run on every one of them) -/
+
+def aesBytes : String := "000102030405060708090a0b0c0d0e0f"
+/-- a plain AES-128 key block -/
+def kbAes : CoreKeyBlock :=
+  { format := .val fmtRaw, compression := none, keyValue := some ⟨.bytes aesBytes, 0⟩, alg := .val 3,
+    len := .val 128, wrapping := none }
+def noAttrs : Attrs := ⟨[], 1, none, false, 0, none, [], some 1⟩
+/-- the attributes a Register typically leaves: two names, an owner, a date, Encrypt|Decrypt given out of order -/
+def someAttrs : Attrs :=
+  ⟨[⟨"k1", 1, some 1⟩, ⟨"k2", 2, some 1⟩], 3, none, false, 1700000000, some "alice", [8, 4], some 1⟩
+
+/-- the whole path Register-conversion ; attributes ; rows ; load ; Get-conversion -/
+def storeAndGet (c : CoreObj) (a : Attrs) : C CoreObj := do
+  let p ← coreToPie c
+  let r ← pieToRow (withAttrs p a)
+  engineBuildCore (rowToPie r)
+
+/-- F-C05-a: Secret Data registered with key format Raw is returned with key format Opaque -/
+def secretRaw : CoreObj :=
+  .secretData (.val 1) (some { format := .val fmtRaw, compression := none, keyValue := some ⟨.bytes "70617373", 0⟩,
+                               alg := .absent, len := .absent, wrapping := none })
+theorem secret_data_format_reported_opaque :
+    storeAndGet secretRaw someAttrs = .ok (.secretData (.val 1)
+      (some { format := .val fmtOpaque, compression := none, keyValue := some ⟨.bytes "70617373", 0⟩,
+              alg := .absent, len := .absent, wrapping := none })) ∧ ¬ Storable secretRaw := by
+  refine ⟨rfl, ?_⟩
+  intro h; exact absurd h.1 (by decide)
+
+/-- Secret Data registered with an algorithm and a length in its key block is returned without them -/
+def secretWithLength : CoreObj :=
+  .secretData (.val 1) (some { format := .val fmtOpaque, compression := none, keyValue := some ⟨.bytes "70617373", 0⟩,
+                               alg := .val 3, len := .val 32, wrapping := none })
+theorem secret_data_algorithm_length_dropped :
+    storeAndGet secretWithLength noAttrs = .ok (.secretData (.val 1)
+      (some { format := .val fmtOpaque, compression := none, keyValue := some ⟨.bytes "70617373", 0⟩,
+              alg := .absent, len := .absent, wrapping := none })) ∧ ¬ Storable secretWithLength := by
+  refine ⟨rfl, ?_⟩
+  intro h; exact absurd h.2.2.2.1 (by decide)
+
+/-- a wrapped Secret Data is refused at Register (`TypeError`, answered Invalid Field).  Before the repair 683f968 its
+bytes were stored without the key wrapping data, which the pie class cannot hold, and returned as the plain secret
+(signature `c05:secret-data-wrapping-data-dropped`, now a monitor of the correspondence check). -/
+def wrapEncrypt : WrapDict := ⟨.enum 1, some ⟨.text "7", none⟩, none, .none, .none, .none⟩
+def secretWrapped : CoreObj :=
+  .secretData (.val 1) (some { format := .val fmtOpaque, compression := none, keyValue := some ⟨.bytes "70617373", 0⟩,
+                               alg := .absent, len := .absent, wrapping := some wrapEncrypt })
+theorem wrapped_secret_data_refused :
+    CoreWf secretWrapped ∧
+    coreToPie secretWrapped = .error ⟨.typeError, "core key wrapping data not compatible with Pie SecretData"⟩ :=
+  ⟨rfl, rfl⟩
+
+/-- F-C05-b: key wrapping data whose cryptographic parameters are all falsy (`random_iv = False`, `iv_length = 0`)
+comes back without the parameters -/
+def keyFalsyParams : CoreObj :=
+  .key .symmetric (some { kbAes with wrapping := some ⟨.enum 1, some ⟨.text "7", some Kmip.C05.falsyCp⟩, none, .none, .none, .none⟩ })
+theorem falsy_wrapping_parameters_dropped :
+    storeAndGet keyFalsyParams noAttrs =
+      .ok (.key .symmetric (some { kbAes with wrapping := some ⟨.enum 1, some ⟨.text "7", none⟩, none, .none, .none, .none⟩ })) := rfl
+
+/-- a key registered with a key compression type is returned without it -/
+def keyCompressed : CoreObj := .key .publicKey (some { kbAes with format := .val fmtX509, compression := some 2 })
+theorem key_compression_type_dropped :
+    storeAndGet keyCompressed noAttrs = .ok (.key .publicKey (some { kbAes with format := .val fmtX509 })) := rfl
+
+/-- attributes inside the key value are not stored -/
+def keyWithValueAttributes : CoreObj := .key .symmetric (some { kbAes with keyValue := some ⟨.bytes aesBytes, 2⟩ })
+theorem key_value_attributes_dropped :
+    storeAndGet keyWithValueAttributes noAttrs = .ok (.key .symmetric (some kbAes)) := rfl
+
+/-- a transparent key (structured key material) is refused: the factory reads `key_material.value` -/
+theorem transparent_key_material_refused :
+    coreToPie (.key .symmetric (some { kbAes with keyValue := some ⟨.struct, 0⟩ })) =
+      .error ⟨.attributeError, "object has no attribute"⟩ := rfl
+
+/-- a Split Key whose prime field size does not fit a signed 64 bit integer (the `BigInteger` column is a SQLite
+INTEGER) is refused at Register (`ValueError` of the pie setter, answered Invalid Field).  Before the repair 8b96c42
+it passed every conversion and the commit failed (General Failure; signature
+`c05:split-key-prime-field-size-not-storable`, now a monitor of the correspondence check). -/
+def splitBigPrime : CoreObj := .splitKey ⟨some 3, some 1, some 2, some 2, some (2 ^ 64 + 13)⟩ (some kbAes)
+theorem split_key_prime_field_size_refused :
+    CoreWf splitBigPrime ∧
+    coreToPie splitBigPrime = .error ⟨.valueError, "The prime field size must fit in a 64-bit signed integer."⟩ :=
+  ⟨rfl, rfl⟩
+/-- the largest prime field size that can be registered is returned exactly -/
+def splitMaxPrime : CoreObj := .splitKey ⟨some 3, some 1, some 2, some 2, some (2 ^ 63 - 1)⟩ (some kbAes)
+theorem split_key_largest_prime_field_size_exact : storeAndGet splitMaxPrime someAttrs = .ok splitMaxPrime := rfl
+
+/-- **where the two pie → core conversions differ**: `SplitKey()` (nothing set: the constructor validates nothing) is
+converted by the factory to a secret with a value-less algorithm wrapper and length 0, by the engine to a secret
+without algorithm and length -/
+def emptySplit : PieObj := freshPie (.splitKey freshCrypto ⟨none, none, some fmtRaw, toColumns none⟩ ⟨none, none, none, none, none⟩) none
+theorem engine_differs_from_factory :
+    PieOk emptySplit ∧ PieWf emptySplit ∧
+    pieToCore emptySplit = .ok (.splitKey ⟨none, none, none, none, none⟩
+      (some { format := .val fmtRaw, compression := none, keyValue := some ⟨.bytes "", 0⟩, alg := .unset, len := .val 0,
+              wrapping := none })) ∧
+    engineBuildCore emptySplit = .ok (.splitKey ⟨none, none, none, none, none⟩
+      (some { format := .val fmtRaw, compression := none, keyValue := some ⟨.bytes "", 0⟩, alg := .absent, len := .absent,
+              wrapping := none })) := ⟨rfl, rfl, rfl, rfl⟩
+
+/-- … and the factory's round trip does not give `SplitKey()` back (length 0, empty value): `Complete` is needed -/
+theorem pie_core_roundtrip_needs_complete :
+    (pieToCore emptySplit >>= coreToPie) =
+      .ok (freshPie (.splitKey freshCrypto ⟨none, some 0, some fmtRaw, toColumns none⟩ ⟨none, none, none, none, none⟩) (some "")) := rfl
+
+/-- a pie key whose wrapping columns hold only falsy values is another object after pie → core → pie, although its
+`key_wrapping_data` property reads the same (`fresh` normalises the columns) -/
+def falsyCols : Columns := { toColumns none with method := .enum 1, ekiUid := .text "7", ekiCp := Kmip.C05.falsyCp }
+def keyFalsyCols : PieObj := freshPie (.key freshCrypto .symmetric ⟨some 3, some 128, some fmtRaw, falsyCols⟩) (some aesBytes)
+theorem pie_core_roundtrip_normalises_columns :
+    PieOk keyFalsyCols ∧ PieWf keyFalsyCols ∧ fresh keyFalsyCols ≠ keyFalsyCols ∧
+    (pieToCore keyFalsyCols >>= coreToPie) = .ok (fresh keyFalsyCols) := by
+  refine ⟨rfl, rfl, by decide, rfl⟩
+
+/-- a key length outside 32 bits: accepted by the pie constructor of a wrapped key, refused by both conversions to
+core (`Integer`), storable -/
+def keyLongLength : PieObj :=
+  freshPie (.key freshCrypto .symmetric ⟨some 3, some (2 ^ 40), some fmtRaw, { toColumns none with method := .enum 1 }⟩) (some aesBytes)
+theorem length_beyond_32_bits_not_convertible :
+    PieOk keyLongLength ∧ pieToCore keyLongLength = .error ⟨.valueError, "integer value greater than accepted max"⟩ ∧
+    engineBuildCore keyLongLength = .error ⟨.valueError, "integer value greater than accepted max"⟩ ∧
+    (pieToRow keyLongLength).toOption.isSome = true := ⟨rfl, rfl, rfl, by decide⟩
+
+/-! ## non-vacuity: for each of the seven types a secret in the domain of every theorem, through the whole path -/
+
+/-- the hypotheses of `register_get_exact` / `client_sees_registered_object` hold for `c` with the attributes `a` -/
+def InDomain (c : CoreObj) (a : Attrs) : Prop :=
+  CoreWf c ∧ Storable c ∧ (∀ m ∈ a.masks, m ∈ maskBits) ∧
+  ∃ p r, coreToPie c = .ok p ∧ pieToRow (withAttrs p a) = .ok r ∧ PieOk p ∧ PieWf (withAttrs p a) ∧ Complete p
+
+theorem someAttrs_masks : ∀ m ∈ someAttrs.masks, m ∈ maskBits := by decide
+example : AttrsFit someAttrs := ⟨rfl, rfl, rfl⟩
+
+theorem kbStorable_plain (kb : CoreKeyBlock) (h1 : kb.compression = none) (h2 : (kb.keyValue.map (·.attrs)).getD 0 = 0)
+    (h3 : kb.alg ≠ .unset) (h4 : kb.len ≠ .unset) (h5 : kb.wrapping = none) : kbStorable kb :=
+  ⟨h1, h2, h3, h4, by rw [h5]; trivial⟩
+
+example : InDomain (.certificate certX509 "3082") someAttrs :=
+  ⟨rfl, trivial, someAttrs_masks, _, _, rfl, rfl, rfl, rfl, ⟨rfl, trivial⟩⟩
+example : InDomain (.key .symmetric (some kbAes)) someAttrs :=
+  ⟨rfl, kbStorable_plain _ rfl rfl (by decide) (by decide) rfl, someAttrs_masks, _, _, rfl, rfl, rfl, rfl, ⟨rfl, rfl, rfl, rfl⟩⟩
+example : InDomain (.key .publicKey (some { kbAes with format := .val fmtX509, alg := .val 4, len := .val 2048 })) someAttrs :=
+  ⟨rfl, kbStorable_plain _ rfl rfl (by decide) (by decide) rfl, someAttrs_masks, _, _, rfl, rfl, rfl, rfl, ⟨rfl, rfl, rfl, rfl⟩⟩
+example : InDomain (.key .privateKey (some { kbAes with format := .val fmtPkcs8, alg := .val 4, len := .val 2048 })) someAttrs :=
+  ⟨rfl, kbStorable_plain _ rfl rfl (by decide) (by decide) rfl, someAttrs_masks, _, _, rfl, rfl, rfl, rfl, ⟨rfl, rfl, rfl, rfl⟩⟩
+example : InDomain (.splitKey ⟨some 3, some 1, some 2, some 1, none⟩ (some kbAes)) someAttrs :=
+  ⟨rfl, kbStorable_plain _ rfl rfl (by decide) (by decide) rfl, someAttrs_masks, _, _, rfl, rfl, rfl, rfl, ⟨rfl, rfl, rfl, rfl⟩⟩
+def secretPassword : CoreObj :=
+  .secretData (.val 1) (some { format := .val fmtOpaque, compression := none, keyValue := some ⟨.bytes "70617373", 0⟩,
+                               alg := .absent, len := .absent, wrapping := none })
+example : InDomain secretPassword someAttrs :=
+  ⟨rfl, ⟨rfl, rfl, rfl, rfl, rfl⟩, someAttrs_masks, _, _, rfl, rfl, rfl, rfl, ⟨rfl, trivial⟩⟩
+example : InDomain (.opaqueObj (.val 2147483648) (some "00ff")) noAttrs :=
+  ⟨rfl, trivial, by decide, _, _, rfl, rfl, rfl, rfl, ⟨rfl, trivial⟩⟩
+
+/-- a wrapped key whose key wrapping data is normal (a truthy parameter among falsy ones): in the domain, returned exactly -/
+def wrapNormal : WrapDict :=
+  ⟨.enum 1, some ⟨.text "7", some (Kmip.C05.falsyCp.set 0 (.enum 13))⟩, none, .none, .bytes "0000000000000000", .enum 1⟩
+theorem wrapNormal_normal : wrapNormal.Normal :=
+  ⟨⟨⟨by decide, by decide⟩, by decide⟩, trivial, by decide⟩
+def keyWrapped : CoreObj :=
+  .key .symmetric (some { kbAes with keyValue := some ⟨.bytes (aesBytes ++ "a6a6a6a6a6a6a6a6"), 0⟩, wrapping := some wrapNormal })
+example : InDomain keyWrapped someAttrs :=
+  ⟨rfl, ⟨rfl, rfl, by decide, by decide, wrapNormal_normal⟩, someAttrs_masks, _, _, rfl, rfl, rfl, rfl, ⟨rfl, rfl, rfl, rfl⟩⟩
+example : storeAndGet keyWrapped someAttrs = .ok keyWrapped := rfl
+/-- the masks `[8, 4]` of `someAttrs` come back as `[4, 8]`; the absent policy name as `'default'` -/
+example : (coreToPie keyWrapped >>= fun p => pieToRow (withAttrs p someAttrs)).map (fun r => ((rowToPie r).spec.crypto?, (rowToPie r).policy)) =
+    .ok (some ⟨[4, 8], some 1⟩, some "default") := rfl
+
+/-- refusals of the pie constructors (`convertCheck` of the engine model mirrors these) -/
+example : coreToPie (.certificate 2 "00") = .error ⟨.typeError, "core certificate type not supported"⟩ := rfl
+example : coreToPie (.key .symmetric (some { kbAes with len := .val 256 })) =
+    .error ⟨.valueError, "not equal to key value length"⟩ := rfl
+example : coreToPie (.key .symmetric (some { kbAes with format := .val fmtPkcs1 })) =
+    .error ⟨.typeError, "core key format type not compatible with Pie SymmetricKey"⟩ := rfl
+example : coreToPie (.key .publicKey (some { kbAes with format := .val fmtPkcs8 })) =
+    .error ⟨.valueError, "key format type must be one of"⟩ := rfl
+example : coreToPie (.key .privateKey (some { kbAes with alg := .absent })) =
+    .error ⟨.attributeError, "object has no attribute"⟩ := rfl
+/-- a wrapped symmetric key needs no length agreement -/
+example : (coreToPie (.key .symmetric (some { kbAes with len := .val 256, wrapping := some wrapNormal }))).toOption.isSome = true := by
+  decide
 
 
 end Kmip.C05Convert
